@@ -1417,11 +1417,11 @@ def cli_batch(ctx, res, exe, batch, timeout, variant, workers):
         files, args, desc, origin = c
         o = run_case(ctx, exe, files, args, timeout)
         if o["kind"] == "timeout":
-            o2 = run_case(ctx, exe, files, args, timeout * 3)      # the machine is shared: confirm with a generous limit
+            o2 = run_case(ctx, exe, files, args, timeout * 2)      # the machine is shared: confirm with a generous limit
             if o2["kind"] != "timeout":
                 o = o2
             else:
-                o["confirmed_timeout_s"] = timeout * 3
+                o["confirmed_timeout_s"] = timeout * 2
         return c, o
     with concurrent.futures.ThreadPoolExecutor(max_workers=workers) as ex:
         for c, o in ex.map(one, batch):
@@ -1546,7 +1546,7 @@ def run(ctx, res):
         probe.append(time.time() - t)
     slow = min(8.0, max(1.0, sorted(probe)[1] / (0.3 if variant == "asan" else 0.06)))
     res.extra["machine_slowness_factor"] = round(slow, 1)
-    tmo = int((120 if variant == "asan" else 12) * slow)
+    tmo = min(int((120 if variant == "asan" else 12) * slow), 300 if variant == "asan" else 60)
     workers = 6 if thorough else 4
     # closed-run guards: input-free paths are executed
     if M is not None:
